@@ -1011,7 +1011,9 @@ Proof. intros H. induction n; cbn; constructor; auto. Qed.
 
 Lemma apply_mut_wf m v v' : mutop_wf m -> jv_wf v -> apply_mut m v = Some v' -> jv_wf v'.
 Proof.
-  intros Hm Hv. destruct m, v; cbn; try discriminate; intros E.
+  intros Hm Hv. destruct m, v; cbn; try discriminate; intros E;
+    try (solve [inversion E; subst; exact Hv
+               |match type of E with context [?c || ?d] => destruct (c || d) end; inversion E; subst; exact Hv]).
   - inversion E; subst. inversion Hv; subst. constructor. apply Forall_app. split; [assumption|]. constructor; [exact Hm|constructor].
   - inversion E; subst. inversion Hv; subst. constructor; [apply obj_add_nodup; assumption|apply obj_add_forall; assumption].
   - inversion E; subst. inversion Hv; subst. constructor; [apply obj_del_nodup; assumption|apply obj_del_forall; assumption].
@@ -1059,6 +1061,57 @@ Proof.
   destruct (mutate_at p m v) as [v'|] eqn:E.
   - specialize (IH H3 v' (mutate_at_wf p m H2 v v' Hv E)). destruct (run_history t v'). exact IH.
   - specialize (IH H3 v Hv). destruct (run_history t v). exact IH.
+Qed.
+
+(* process-wide settings: a global step never changes a tree, the tree a history produces
+   does not depend on the settings in force, and neither do comparison and copy *)
+Lemma global_step_tree m v : (exists h, m = MGlobalHash h) \/ (exists f, m = MGlobalFormat f) ->
+  apply_mut m v = Some v \/ apply_mut m v = None.
+Proof.
+  intros [[h ->]|[f ->]]; destruct v; cbn; try destruct ((h =? 0) || (h =? 1)); auto.
+Qed.
+
+Lemma run_history_g_tree g h v : fst (run_history_g g h v) = run_history h v.
+Proof.
+  revert g v. induction h as [|[p m] t IH]; intros g v; cbn; [reflexivity|].
+  destruct (mutate_at p m v) as [v'|].
+  - specialize (IH (global_step m g) v'). destruct (run_history_g (global_step m g) t v') as [[r oks] g2].
+    cbn in *. rewrite <- IH. reflexivity.
+  - specialize (IH (global_step m g) v). destruct (run_history_g (global_step m g) t v) as [[r oks] g2].
+    cbn in *. rewrite <- IH. reflexivity.
+Qed.
+
+Theorem settings_irrelevant g g' ha hb a b :
+  let a1 := fst (fst (run_history_g g ha a)) in
+  let b1 := fst (fst (run_history_g g hb b)) in
+  let a2 := fst (fst (run_history_g g' ha a)) in
+  let b2 := fst (fst (run_history_g g' hb b)) in
+  a1 = a2 /\ b1 = b2 /\ jv_equal_in g a1 b1 = jv_equal_in g' a2 b2 /\ deep_copy_in g a1 = deep_copy_in g' a2.
+Proof.
+  cbn zeta. rewrite !run_history_g_tree. unfold jv_equal_in, deep_copy_in. auto.
+Qed.
+
+(* a settings change inserted anywhere in a history is invisible in the tree reached *)
+Definition is_global (pm : list step * mutop) : bool :=
+  match pm with
+  | ([], MGlobalHash _) => true
+  | ([], MGlobalFormat _) => true
+  | _ => false
+  end.
+
+Theorem history_globals_ignored h v :
+  fst (run_history h v) = fst (run_history (filter (fun pm => negb (is_global pm)) h) v).
+Proof.
+  revert v. induction h as [|[p m] t IH]; intros v; [reflexivity|].
+  destruct (is_global (p, m)) eqn:G.
+  - assert (E : mutate_at p m v = Some v \/ mutate_at p m v = None).
+    { destruct p; [|discriminate]. destruct m; try discriminate; cbn [mutate_at]; apply global_step_tree; eauto. }
+    cbn [filter]. rewrite G. cbn [negb]. cbn [run_history].
+    destruct E as [-> | ->]; specialize (IH v); destruct (run_history t v); cbn in *; exact IH.
+  - cbn [filter]. rewrite G. cbn [negb run_history].
+    destruct (mutate_at p m v) as [v'|].
+    + specialize (IH v'). destruct (run_history t v'), (run_history (filter _ t) v'). exact IH.
+    + specialize (IH v). destruct (run_history t v), (run_history (filter _ t) v). exact IH.
 Qed.
 
 (* equality after histories depends on the reached values only *)
